@@ -266,7 +266,7 @@ m = {
     "setup_cmd": "sh bin/setup",
     "hooks": {"guard": "verif", "enable": "go build -tags verif (and -tags verif,validatedebug for pool checks)",
               "baseline_off_cmd": "cd /repo && go test -vet=off -count=1 -timeout 25m ./...",
-              "source_commits": ["6c69608", "41f4605", "712e326"], "add_only": True},
+              "source_commits": ["6c69608", "41f4605", "712e326", "a91175c"], "add_only": True},
     "engines": [{"name": "coq-model+correspondence", "path": "/verif/coq, /verif/ocaml, /verif/go, /verif/bin/check",
                  "serves_properties": sorted(CLAIMED),
                  "kind_free_text": "Coq 8.16.1 proofs about hand-written Gallina models; models extracted to OCaml and run against the Go implementation on generated cases"}],
